@@ -269,8 +269,17 @@ func (g *Gen) Next(m *Model) Step {
 		}
 		st.IO = f
 	}
-	if c := st.Cmd; c != nil && c.Mode != "" && c.Mode != "json" {
-		// text that travels in argv cannot contain NUL (no caller can pass one)
+	if st.Cmd != nil {
+		argvSafe(st.Cmd)
+	}
+	return st
+}
+
+// argvSafe makes a command expressible on a command line: text that travels
+// in argv cannot contain NUL (no caller can pass one) and one argv string
+// cannot exceed 128 KiB. Applied to every generated command, whoever built it.
+func argvSafe(c *Cmd) {
+	if c.Mode != "" && c.Mode != "json" {
 		strip := func(p *string) {
 			if p != nil {
 				*p = strings.ReplaceAll(*p, "\x00", "")
@@ -292,7 +301,6 @@ func (g *Gen) Next(m *Model) Step {
 			c.Title = &t
 		}
 	}
-	return st
 }
 
 func (g *Gen) next(m *Model) Step {
